@@ -168,6 +168,7 @@ class FieldData:
 
   def _set_existing_field(self, fieldname, value, set_reference = False):
     renaming_connected = False
+    previous = None
     if self._gfa:
       if not set_reference and \
         (fieldname in self.__class__.REFERENCE_FIELDS or \
@@ -179,17 +180,38 @@ class FieldData:
         (self.__class__.STORAGE_KEY == "name" and \
         fieldname == self.__class__.NAME_FIELD):
          renaming_connected = True
-         self._gfa._unregister_line(self)
+    if value is not None and self.vlevel >= 3:
+      self._field_or_default_datatype(fieldname, value)
+      gfapy.Field._validate_gfa_field(value, self._field_datatype(fieldname),
+          fieldname)
+    if renaming_connected:
+      if self.__class__.STORAGE_KEY == "name":
+        previous = self._gfa.line(value)
+        if previous is self:
+          previous = None
+        elif previous is not None and not \
+            (previous.virtual and (previous.record_type == "\n" or
+             previous.record_type == self.record_type)):
+          raise gfapy.NotUniqueError(
+            "Line: {}\n".format(str(self))+
+            "cannot be renamed to {}\n".format(value)+
+            "Line or ID not unique\n"+
+            "Matching previous line: {}".format(str(previous)))
+      self._gfa._unregister_line(self)
     if value is None:
       if fieldname in self._data:
         self._data.pop(fieldname)
     else:
-      if self.vlevel >= 3:
-        self._field_or_default_datatype(fieldname, value)
-        gfapy.Field._validate_gfa_field(value, self._field_datatype(fieldname),
-            fieldname)
       self._data[fieldname] = value
     if renaming_connected:
+      if previous is not None:
+        # the new name was that of a placeholder for a line which was
+        # referenced, but not defined yet: the line takes its place
+        self._gfa._unregister_line(previous)
+        for k, v in previous._refs.items():
+          for ref in v:
+            self._add_reference(ref, k)
+            self._update_backreference_in(ref, previous, k)
       self._gfa._register_line(self)
 
   def _dealias_fieldname(self, fieldname):
